@@ -17,7 +17,7 @@ var allFindingIDs = []string{
 	"C04-SPAN-EMPTY-SEQUENCE", "C04-SPAN-EMPTY-CASE", "C04-SPAN-EMPTY-PROGRAM", "C04-WALK-TYPED-NIL",
 	"C04-CONTINUE-NONITER-LABEL", "C04-PARAM-TRAILING-COMMA", "C04-ARG-TRAILING-COMMA", "C04-OBJLIT-MISSING-COMMA",
 	"C04-SWITCH-UNTERMINATED", "C04-AND-NOT-ASSIGN", "C04-REGEX-FLAGS-UNCHECKED", "C04-REGEX-FLAGS-SPACED",
-	"C04-OBJLIT-NAME-CLASH", "C04-ACCESSOR-ARITY", "C04-DUP-LABEL-QUADRATIC", "C04-REGEX-CLASS-UNTERMINATED", "C04-SETTER-NO-PARAMETER", "C04-OBJLIT-ANY-TOKEN-KEY",
+	"C04-OBJLIT-NAME-CLASH", "C04-ACCESSOR-ARITY", "C04-DUP-LABEL-QUADRATIC", "C04-REGEX-CLASS-UNTERMINATED", "C04-SETTER-NO-PARAMETER", "C04-OBJLIT-ANY-TOKEN-KEY", "C04-REGEX-QUANTIFIED-ASSERTION",
 }
 
 // accepted reports whether parser.ParseFile accepts src (a panic counts as "not accepted").
@@ -117,6 +117,14 @@ func registerWitnesses() {
 		return false, "rejected"
 	})
 	harness.RegisterWitness("C04-OBJLIT-ANY-TOKEN-KEY", acceptWitness("({,:1})"))
+	harness.RegisterWitness("C04-REGEX-QUANTIFIED-ASSERTION", func() (bool, string) {
+		for _, s := range []string{"/^*/", "/a$+/", "/\\b{2}/", "/(a|\\B?)/"} {
+			if ok, _ := acceptedSrc(s); ok {
+				return true, fmt.Sprintf("%q accepted", s)
+			}
+		}
+		return false, "rejected"
+	})
 	harness.RegisterWitness("C04-SETTER-NO-PARAMETER", acceptWitness("({set a(){}})"))
 	harness.RegisterWitness("C04-REGEX-CLASS-UNTERMINATED", acceptWitness("/[/\n a;"))
 	harness.RegisterWitness("C04-DUP-LABEL-QUADRATIC", func() (bool, string) {
